@@ -16,7 +16,9 @@ ASSUMPTIONS = [
     "measures are contiguous from position 0; queries are the integer positions inside measures",
     "pickup extent is judged only when the divisions do not change inside the first measure and a time signature stands at position 0 (otherwise 'a full bar before the first barline' is not defined on the timeline)",
     "metrical positions of single-measure parts are not judged (the library documents 0 everywhere with a warning)",
-    "clef line is an int as documented",
+    "clef line is an int as documented, or None as load_musicxml creates it for a clef without <line> (then the line column of the clef map is not judged, the other columns are)",
+    "when no time signature stands at position 0 or the divisions change inside the first measure only the extent of the first measure is left unjudged; later measures are judged",
+    "note-array columns are compared with the maps at the note onsets (agreement, not an independent reference: that is C05)",
 ]
 
 PROFILE = G.profile(max_bars=5, max_voices=2, max_staves=3, midbar_changes=True, irregular=True, grace=False, ties=False, tuplets=False)
@@ -37,8 +39,25 @@ def strat(tier):
             "number_offset": st.integers(0, 3),
             # first measure numbered 0 (the usual number of a pickup, zero-based numbering), 1 or higher
             "number_shift": st.sampled_from([-1, -1, 0, 0, 0, 3]),
+            # other documented spellings of the mode (key_mode_to_int: 'major', 'minor', None, 'none', 1, -1): [index, mode]
+            "ks_mode_alt": st.lists(st.tuples(st.integers(0, 3), st.sampled_from(["none", 1, -1])), max_size=2),
+            # clef variations [index, kind]: octave_change None (MusicXML clef without <clef-octave-change>), the signs
+            # 'none' and 'jianpu', line None (MusicXML percussion / TAB / none clef without <line>)
+            "clef_var": st.lists(st.tuples(st.integers(0, 5), st.sampled_from(["oc-none", "oc-none", "sign-none", "sign-jianpu", "line-none"])), max_size=3),
+            # user-supplied musical beats [index of one of the part's signatures, beats], used when "musical" is on
+            "mbeats_rel": st.one_of(st.just([]), st.lists(st.tuples(st.integers(0, 5), st.integers(1, 6)), min_size=1, max_size=2)),
+            # argument type tried besides int arrays and python ints
+            "arg_type": st.sampled_from(["list", "list", "float-array", "numpy-scalar", "python-float"]),
+            "with_note_array": st.booleans(),
         }
     )
+
+
+def _as_arg(ts, kind):
+    ints = [int(t) for t in ts]
+    if kind == "list":
+        return ints
+    return np.asarray(ints, dtype=float)
 
 
 def in_force(rows, t):
@@ -50,6 +69,41 @@ def in_force(rows, t):
     if cur is None and rows:
         cur = rows[0]
     return cur
+
+
+def _check_clefs(o, part, clefs, nstaves, ts_q, scalar_ts, at):
+    cm = call(lambda: part.clef_map)
+    arr = np.asarray(call(cm, ts_q))  # (staves, n, 4)
+    if arr.ndim != 3 or arr.shape[0] != nstaves:
+        o.add("clef-map-bad-shape", shape=list(arr.shape), staves=nstaves)
+        return
+    if at in ("list", "float-array"):
+        other = np.asarray(call(cm, _as_arg(ts_q, at)))
+        if other.shape != arr.shape or not np.array_equal(other, arr):
+            o.add("clef-map-argument-type-changes-value", arg_type=at)
+    for s in range(1, nstaves + 1):
+        rows = [c for c in clefs if c[1] == s]
+        for i, t in enumerate(ts_q):
+            r = in_force(rows, t)
+            exp = [s, CLEF_CODE[r[2]], r[3], r[4] or 0] if r else [s, 6, 0, 0]
+            got = [int(x) for x in arr[s - 1][i]]
+            if exp[2] is None:
+                # a clef without a line: the line column has no defined value
+                exp[2] = got[2]
+            if got != exp:
+                o.add("clef-map-wrong", t=int(t), staff=s, got=got, expected=exp)
+                return
+            if int(t) not in scalar_ts:
+                continue
+            sc = np.asarray(call(cm, int(t)))
+            if [int(x) for x in sc[s - 1]] != got:
+                o.add("clef-map-scalar-array-disagree", t=int(t), staff=s)
+                return
+            if at in ("numpy-scalar", "python-float"):
+                sc = np.asarray(call(cm, np.int64(t) if at == "numpy-scalar" else float(t)))
+                if [int(x) for x in sc[s - 1]] != got:
+                    o.add("clef-map-argument-type-changes-value", t=int(t), staff=s, arg_type=at)
+                    return
 
 
 def oracle(spec):
@@ -66,7 +120,23 @@ def oracle(spec):
     ksigs = sorted(ps["keysigs"], key=lambda x: x[0])
     if spec["drop_ks_first"] and len(ksigs) > 1:
         ksigs = ksigs[1:]
-    clefs = sorted(ps["clefs"], key=lambda x: (x[0], x[1]))
+    ksigs = [list(k) for k in ksigs]
+    for (i, alt) in spec.get("ks_mode_alt") or []:
+        if ksigs:
+            ksigs[i % len(ksigs)][2] = alt
+    clefs = [list(c) for c in sorted(ps["clefs"], key=lambda x: (x[0], x[1]))]
+    for (i, kind) in spec.get("clef_var") or []:
+        if not clefs:
+            break
+        c = clefs[i % len(clefs)]
+        if kind == "oc-none":
+            c[4] = None
+        elif kind == "sign-none":
+            c[2] = "none"
+        elif kind == "sign-jianpu":
+            c[2] = "jianpu"
+        elif kind == "line-none" and c[2] in ("percussion", "TAB", "none"):
+            c[3] = None
     if spec["drop_clefs"] == "all":
         clefs = []
     elif spec["drop_clefs"] == "first-per-staff":
@@ -80,11 +150,22 @@ def oracle(spec):
     ps["timesigs"], ps["keysigs"], ps["clefs"], ps["measures"] = tsigs, ksigs, clefs, measures
     part, _ = build_part(ps)
     musical = spec["musical"]
+    user_mb = {}
     if musical:
-        call(part.use_musical_beat)
+        for (i, v) in spec.get("mbeats_rel") or []:
+            if tsigs:
+                r = tsigs[i % len(tsigs)]
+                user_mb["%d/%d" % (r[1], r[2])] = v
+        if user_mb:
+            call(part.use_musical_beat, dict(user_mb))
+        else:
+            call(part.use_musical_beat)
     ref = G.PartRef(dict(ps, timesigs=tsigs or [[0, 4, 4]]))
     end = ps["end"]
     ts_q = np.arange(0, end)
+    ts_in_force = np.arange(0, end + 1)  # the in-force maps also at the last time point
+    at = spec.get("arg_type")
+    o.cls("argument-type-" + str(at), bool(at))
     # scalar queries: all change points and their neighbours, bar lines, ends and an even sample
     interesting = set([0, end - 1])
     for r in list(tsigs) + list(ksigs) + list(clefs) + [[m[0]] for m in measures] + [[m[1]] for m in measures]:
@@ -103,14 +184,23 @@ def oracle(spec):
     o.cls("pickup", ps["pickup"] is not None)
     o.cls("measure-numbered-0", any(m[2] == 0 for m in measures))
     o.cls("musical-beat-mode", musical)
+    o.cls("user-supplied-musical-beats", bool(user_mb))
+    o.cls("key-mode-spelled-none-or-int", any(k[2] in ("none", 1, -1) for k in ksigs))
+    o.cls("clef-octave-change-none", any(c[4] is None for c in clefs))
+    o.cls("clef-sign-none-or-jianpu", any(c[2] in ("none", "jianpu") for c in clefs))
+    o.cls("clef-without-line", any(c[3] is None for c in clefs))
 
     # ---- time signatures ---------------------------------------------------------------
     tsm = call(lambda: part.time_signature_map)
-    arr = np.asarray(call(tsm, ts_q))
-    for i, t in enumerate(ts_q):
+    arr = np.asarray(call(tsm, ts_in_force))
+    if at in ("list", "float-array"):
+        other = np.asarray(call(tsm, _as_arg(ts_in_force, at)))
+        if other.shape != arr.shape or not np.array_equal(other, arr, equal_nan=True):
+            o.add("time-signature-map-argument-type-changes-value", arg_type=at)
+    for i, t in enumerate(ts_in_force):
         r = in_force(tsigs, t)
         b, bt = (r[1], r[2]) if r else (4, 4)
-        mb = G.MUSICAL_BEATS.get(b, b)
+        mb = user_mb.get("%d/%d" % (b, bt), G.MUSICAL_BEATS.get(b, b))
         got = arr[i]
         if got.shape[0] < 2 or not (got[0] == b and got[1] == bt):
             o.add("time-signature-map-wrong", t=int(t), got=[float(x) for x in got], expected=[b, bt], n_ts=len(tsigs), first_ts=tsigs[0][0] if tsigs else None)
@@ -122,13 +212,23 @@ def oracle(spec):
         if not np.array_equal(sc, got, equal_nan=True):
             o.add("time-signature-map-scalar-array-disagree", t=int(t))
             break
+        if int(t) in scalar_ts and at in ("numpy-scalar", "python-float"):
+            sc = np.asarray(call(tsm, np.int64(t) if at == "numpy-scalar" else float(t)))
+            if not np.array_equal(sc, got, equal_nan=True):
+                o.add("time-signature-map-argument-type-changes-value", t=int(t), arg_type=at)
+                break
     # ---- key signatures ------------------------------------------------------------------
     ksm = call(lambda: part.key_signature_map)
-    arr = np.asarray(call(ksm, ts_q))
-    for i, t in enumerate(ts_q):
+    arr = np.asarray(call(ksm, ts_in_force))
+    if at in ("list", "float-array"):
+        other = np.asarray(call(ksm, _as_arg(ts_in_force, at)))
+        if other.shape != arr.shape or not np.array_equal(other, arr, equal_nan=True):
+            o.add("key-signature-map-argument-type-changes-value", arg_type=at, single_element_table=len(ksigs) == 1 and ksigs[0][0] == 0,
+                  got_shape=list(other.shape), expected_shape=list(arr.shape))
+    for i, t in enumerate(ts_in_force):
         r = in_force(ksigs, t)
         f, mode = (r[1], r[2]) if r else (0, "major")
-        exp = [f, -1 if mode == "minor" else 1]
+        exp = [f, -1 if mode in ("minor", -1) else 1]
         got = arr[i]
         if [float(x) for x in got] != [float(x) for x in exp]:
             o.add("key-signature-map-wrong", t=int(t), got=[float(x) for x in got], expected=exp)
@@ -137,57 +237,57 @@ def oracle(spec):
         if not np.array_equal(sc, got, equal_nan=True):
             o.add("key-signature-map-scalar-array-disagree", t=int(t))
             break
+        if int(t) in scalar_ts and at in ("numpy-scalar", "python-float"):
+            sc = np.asarray(call(ksm, np.int64(t) if at == "numpy-scalar" else float(t)))
+            if not np.array_equal(sc, got, equal_nan=True):
+                o.add("key-signature-map-argument-type-changes-value", t=int(t), arg_type=at)
+                break
     # ---- clefs -------------------------------------------------------------------------------
     nstaves = max([1] + [n["staff"] for n in ps["notes"] if n.get("staff")] + [c[1] for c in clefs])
     o.cls("staff-without-clef", any(not [c for c in clefs if c[1] == s] for s in range(1, nstaves + 1)) and bool(clefs))
-    cm = call(lambda: part.clef_map)
-    arr = np.asarray(call(cm, ts_q))  # (staves, n, 4)
-    if arr.ndim != 3 or arr.shape[0] != nstaves:
-        o.add("clef-map-bad-shape", shape=list(arr.shape), staves=nstaves)
-    else:
-        for s in range(1, nstaves + 1):
-            rows = [c for c in clefs if c[1] == s]
-            bad = False
-            for i, t in enumerate(ts_q):
-                r = in_force(rows, t)
-                exp = [s, CLEF_CODE[r[2]], r[3], r[4] or 0] if r else [s, 6, 0, 0]
-                got = [int(x) for x in arr[s - 1][i]]
-                if got != exp:
-                    o.add("clef-map-wrong", t=int(t), staff=s, got=got, expected=exp)
-                    bad = True
-                    break
-                if int(t) not in scalar_ts:
-                    continue
-                sc = np.asarray(call(cm, int(t)))
-                if [int(x) for x in sc[s - 1]] != got:
-                    o.add("clef-map-scalar-array-disagree", t=int(t), staff=s)
-                    bad = True
-                    break
-            if bad:
-                break
+    try:
+        _check_clefs(o, part, clefs, nstaves, ts_in_force, scalar_ts, at)
+    except SutRaised as e:
+        # reported, and the measure maps below are still judged
+        o.add("clef-map-" + e.kind, text=e.text, clef_without_line=any(c[3] is None for c in clefs))
+    # ---- agreement with the note-array columns derived from the maps ---------------------------
+    if spec.get("with_note_array") and any(n["kind"] == "note" for n in ps["notes"]):
+        o.cls("note-array-columns-compared")
+        _check_note_array(o, part, len(measures))
     # ---- measures --------------------------------------------------------------------------------
-    if not tsigs or tsigs[0][0] > 0:
-        o.excluded.append("measure-maps-without-time-signature-at-0")
-        return o
     m0 = measures[0]
-    b0, bt0 = tsigs[0][1], tsigs[0][2]
-    d0 = ref.divs_at(0)
-    div_change_in_first = any(0 < t < max(m0[1], 1) for t, _ in ps["divs"])
-    full = Fraction(b0 * 4, bt0) * d0
     exp_meas = [list(m) for m in measures]
     pickup = False
-    if (m0[1] - m0[0]) < full and not div_change_in_first:
-        pickup = True
-        exp_meas[0][0] = m0[1] - int(full) if full.denominator == 1 else None
+    div_change_in_first = any(0 < t < max(m0[1], 1) for t, _ in ps["divs"])
+    if not tsigs or tsigs[0][0] > 0:
+        # the extent of the first measure is not judged (no signature at 0); the later measures are
+        o.excluded.append("measure-maps-without-time-signature-at-0")
+        exp_meas[0][0] = None
     elif div_change_in_first:
         o.excluded.append("pickup-extent-with-division-change-in-first-measure")
+        exp_meas[0][0] = None
+    else:
+        b0, bt0 = tsigs[0][1], tsigs[0][2]
+        full = Fraction(b0 * 4, bt0) * ref.divs_at(0)
+        if (m0[1] - m0[0]) < full:
+            pickup = True
+            exp_meas[0][0] = m0[1] - int(full) if full.denominator == 1 else None
+    if exp_meas[0][0] is None and len(measures) < 2:
         return o
+    o.cls("later-measures-judged-although-first-extent-unknown", exp_meas[0][0] is None)
     o.cls("pickup-in-musical-beat-mode", pickup and musical)
     o.cls("first-measure-short", pickup)
     mm = call(lambda: part.measure_map)
     mnm = call(lambda: part.measure_number_map)
     arr = np.asarray(call(mm, ts_q))
     nums = np.asarray(call(mnm, ts_q))
+    if at in ("list", "float-array"):
+        other = np.asarray(call(mm, _as_arg(ts_q, at)))
+        if other.shape != arr.shape or not np.array_equal(other, arr):
+            o.add("measure-map-argument-type-changes-value", arg_type=at, single_element_table=len(measures) == 1, got_shape=list(other.shape), expected_shape=list(arr.shape))
+        other = np.asarray(call(mnm, _as_arg(ts_q, at)))
+        if other.shape != nums.shape or not np.array_equal(other, nums):
+            o.add("measure-number-map-argument-type-changes-value", arg_type=at, single_element_table=len(measures) == 1, got_shape=list(other.shape), expected_shape=list(nums.shape))
     for i, t in enumerate(ts_q):
         m = [x for x in exp_meas if x[0] is not None and (x[0] <= t < x[1])]
         if not m:
@@ -208,11 +308,20 @@ def oracle(spec):
         if int(call(mnm, int(t))) != int(nums[i]):
             o.add("measure-number-map-scalar-array-disagree", t=int(t))
             break
+        if at in ("numpy-scalar", "python-float"):
+            x = np.int64(t) if at == "numpy-scalar" else float(t)
+            if [int(v) for v in np.asarray(call(mm, x))] != [int(v) for v in arr[i]] or int(call(mnm, x)) != int(nums[i]):
+                o.add("measure-map-argument-type-changes-value", t=int(t), arg_type=at)
+                break
     if len(measures) < 2:
         o.excluded.append("metrical-position-of-single-measure-part")
         return o
     mpm = call(lambda: part.metrical_position_map)
     arr = np.asarray(call(mpm, ts_q))
+    if at in ("list", "float-array"):
+        other = np.asarray(call(mpm, _as_arg(ts_q, at)))
+        if other.shape != arr.shape or not np.array_equal(other, arr):
+            o.add("metrical-position-map-argument-type-changes-value", arg_type=at)
     for i, t in enumerate(ts_q):
         m = [x for x in exp_meas if x[0] is not None and (x[0] <= t < x[1])]
         if not m:
@@ -228,7 +337,42 @@ def oracle(spec):
         if [int(sc[0]), int(sc[1])] != exp:
             o.add("metrical-position-map-scalar-array-disagree", t=int(t), got=[int(sc[0]), int(sc[1])])
             break
+        if at in ("numpy-scalar", "python-float"):
+            sc = call(mpm, np.int64(t) if at == "numpy-scalar" else float(t))
+            if [int(sc[0]), int(sc[1])] != exp:
+                o.add("metrical-position-map-argument-type-changes-value", t=int(t), arg_type=at)
+                break
     return o
+
+
+def _check_note_array(o, part, n_measures):
+    """'the maps agree with the optional note-array columns derived from them' (at every note onset)."""
+    kw = dict(include_key_signature=True, include_time_signature=True)
+    if n_measures >= 2:
+        kw["include_metrical_position"] = True
+    try:
+        na = call(part.note_array, **kw)
+    except SutRaised as e:
+        o.add("note-array-with-map-columns-" + e.kind, text=e.text)
+        return
+    tsm, ksm = part.time_signature_map, part.key_signature_map
+    mpm = part.metrical_position_map if n_measures >= 2 else None
+    for row in na:
+        t = int(row["onset_div"])
+        ts = [float(x) for x in np.asarray(call(tsm, t))]
+        ks = [float(x) for x in np.asarray(call(ksm, t))]
+        if [float(row["ts_beats"]), float(row["ts_beat_type"]), float(row["ts_mus_beats"])] != ts[:3]:
+            o.add("note-array-time-signature-columns-differ-from-map", t=t, row=[int(row["ts_beats"]), int(row["ts_beat_type"]), int(row["ts_mus_beats"])], map=ts)
+            return
+        if [float(row["ks_fifths"]), float(row["ks_mode"])] != ks[:2]:
+            o.add("note-array-key-signature-columns-differ-from-map", t=t, row=[int(row["ks_fifths"]), int(row["ks_mode"])], map=ks)
+            return
+        if mpm is not None:
+            mp = call(mpm, t)
+            exp = [1 if int(mp[0]) == 0 else 0, int(mp[0]), int(mp[1])]
+            if [int(row["is_downbeat"]), int(row["rel_onset_div"]), int(row["tot_measure_div"])] != exp:
+                o.add("note-array-metrical-columns-differ-from-map", t=t, row=[int(row["is_downbeat"]), int(row["rel_onset_div"]), int(row["tot_measure_div"])], map=exp)
+                return
 
 
 SUBCHECKS = [
@@ -237,7 +381,19 @@ SUBCHECKS = [
         oracle,
         strategy=strat,
         budget={"quick": 400, "thorough": 5000},
-        rule="generated parts (0-n time/key signatures, clefs on 1-3 staves incl. staves without clef and no clef at all, irregular measures, pickups, first element late or missing, notated/musical beat mode); six maps queried at every integer position as scalar and array; non-trivial = an element changes where no note starts or a query lies before the first element of its kind",
-        floors={"single-late-time-signature": 0.02, "no-clef-at-all": 0.03, "staff-without-clef": 0.03, "pickup": 0.05, "measure-numbered-0": 0.1},
+        rule="generated parts (0-n time/key signatures with every documented spelling of the mode, clefs on 1-3 staves incl. staves without clef, no clef at all, clefs without octave change / line, signs none and jianpu, irregular measures, pickups, first element late or missing, notated/musical beat mode with default and user-supplied beats); six maps queried at every integer position (in-force maps also at the last time point) as scalar, array and list/float/numpy-scalar arguments, and compared with the note-array columns; non-trivial = an element changes where no note starts or a query lies before the first element of its kind",
+        known={
+            # utils.generic.interp1d, single-sample branch: everything that is not an ndarray is answered like a scalar
+            "list-argument-answered-like-a-scalar-by-single-element-map": lambda spec, disc: disc["kind"] in (
+                "key-signature-map-argument-type-changes-value", "measure-map-argument-type-changes-value", "measure-number-map-argument-type-changes-value")
+            and disc["detail"].get("arg_type") == "list" and disc["detail"].get("single_element_table") is True
+            and len(disc["detail"].get("got_shape", [])) == len(disc["detail"].get("expected_shape", [0])) - 1,
+            # a clef without a line (what load_musicxml creates for <clef><sign>percussion</sign></clef>) makes the table an object array
+            "clef-map-raises-for-clef-without-line": lambda spec, disc: disc["kind"].startswith("clef-map-sut-raised:TypeError")
+            and disc["detail"].get("clef_without_line") is True,
+        },
+        floors={"single-late-time-signature": 0.02, "no-clef-at-all": 0.03, "staff-without-clef": 0.03, "pickup": 0.05, "measure-numbered-0": 0.1,
+                "clef-octave-change-none": 0.05, "clef-sign-none-or-jianpu": 0.03, "key-mode-spelled-none-or-int": 0.05, "user-supplied-musical-beats": 0.05,
+                "argument-type-list": 0.1, "note-array-columns-compared": 0.2, "later-measures-judged-although-first-extent-unknown": 0.1},
     ),
 ]
